@@ -28,7 +28,7 @@ func genC01(r *Rng, tier string) *Plan {
 	} else if r.Chance(1, 20) {
 		mix.RSA2048 = 1
 	}
-	o := ForestOpts{MaxEnts: 6, MaxDepth: 4, Mix: mix, MaxExts: 2, Dirs: r.Bool(), Aliases: r.Bool(), ExtCase: r.Chance(1, 4),
+	o := ForestOpts{Bulk: 30, MaxEnts: 6, MaxDepth: 4, Mix: mix, MaxExts: 2, Dirs: r.Bool(), Aliases: r.Bool(), ExtCase: r.Chance(1, 4),
 		KeyIDs: true, Validity: valRelative, JSONMix: r.Chance(1, 4), Manip: r.Chance(1, 4)}
 	if r.Chance(1, 12) {
 		// swarm: occasionally a large or deep forest (the statement says any depth and fan-out)
@@ -83,14 +83,18 @@ func genC01(r *Rng, tier string) *Plan {
 		g.P.Meta["foreign"] = fp.Str
 	}
 	var roots, inner []*EntitySpec
-	for _, e := range g.Ents {
-		if e.Issuer == "" {
-			roots = append(roots, e)
-		}
-		if len(g.children(e)) > 0 {
-			inner = append(inner, e)
+	classify := func() {
+		roots, inner = nil, nil
+		for _, e := range g.Ents {
+			if e.Issuer == "" {
+				roots = append(roots, e)
+			}
+			if len(g.children(e)) > 0 {
+				inner = append(inner, e)
+			}
 		}
 	}
+	classify()
 	// (b) foreign root present from the start
 	if r.Chance(1, 4) {
 		foreign(Pick(r, roots), "foreign-root")
@@ -109,7 +113,38 @@ func genC01(r *Rng, tier string) *Plan {
 	}
 	extra := r.Intn(4)
 	for i := 0; i < extra; i++ {
-		switch r.Intn(7) {
+		switch r.Intn(8) {
+		case 7: // an entity is moved under another issuer that already exists (only `issuer:` changes):
+			// after the run it must verify under, and name, that one
+			e := g.ent(Pick(r, g.Ents).ID)
+			if e.Issuer == "" || (e.Manip != nil && e.Manip.PubKey != "") {
+				break
+			}
+			below := map[string]bool{e.ID: true}
+			for changed := true; changed; {
+				changed = false
+				for _, x := range g.Ents {
+					if x.Issuer != "" && !below[x.ID] {
+						if p := g.byAlias(x.Issuer); p != nil && below[p.ID] {
+							below[x.ID], changed = true, true
+						}
+					}
+				}
+			}
+			var cands []*EntitySpec
+			for _, x := range g.Ents {
+				if !below[x.ID] && x.EffAlias() != e.Issuer && keyFamily(x.KeyAlg) == keyFamily(g.byAlias(e.Issuer).KeyAlg) && (x.Manip == nil || x.Manip.PubKey == "") {
+					cands = append(cands, x)
+				}
+			}
+			if len(cands) > 0 {
+				ne := e.Clone()
+				ne.Issuer = Pick(r, cands).EffAlias()
+				g.setEnt(ne)
+				g.P.Add(Op{K: "put-ent", Spec: ne, Label: "moved-under-another-issuer"})
+				g.P.Meta["moved"] = "1"
+				classify()
+			}
 		case 6: // the issuer's config subject is edited but its hash-less artifact is (rightly) not refreshed:
 			// a re-issued child must name the stored certificate, not the config
 			if len(inner) > 0 {
